@@ -169,14 +169,12 @@ pub fn has_consecutive_catmull(cps: &[PathControlPoint]) -> bool {
     false
 }
 
-/// D13 classifier: first segment Catmull and control point 1 coincides with the
-/// slider position without starting a segment.
+/// D13 classifier: a Catmull segment start directly followed by an untyped point at the
+/// same position (the decoder consumes the first duplicate of a Catmull start as split marker).
 pub fn is_d13_shape(cps: &[PathControlPoint]) -> bool {
-    cps.len() >= 2
-        && cps[0].path_type.map(|t| t.kind) == Some(SplineType::Catmull)
-        && cps[1].path_type.is_none()
-        && cps[1].pos.x == 0.0
-        && cps[1].pos.y == 0.0
+    cps.windows(2).any(|w| {
+        w[0].path_type.map(|t| t.kind) == Some(SplineType::Catmull) && w[1].path_type.is_none() && w[1].pos == w[0].pos
+    })
 }
 
 #[derive(Clone, Debug, PartialEq)]
@@ -187,6 +185,8 @@ pub struct ObjKey {
     pub samples: String,
     pub excluded_catmull: bool,
     pub d13: bool,
+    /// D15 classifier: no explicit length and a natural length beyond the decoder's limit
+    pub d15: bool,
 }
 
 #[derive(Clone, Debug, PartialEq)]
@@ -317,15 +317,17 @@ pub fn object_key(h: &mut HitObject, bufs: &mut CurveBuffers) -> ObjKey {
             samples,
             excluded_catmull: false,
             d13: false,
+            d15: false,
         },
         HitObjectKind::Slider(s) => {
             let excluded = has_consecutive_catmull(s.path.control_points());
             let d13 = is_d13_shape(s.path.control_points());
             let cps = cps_render(s.path.control_points());
-            let curve = {
+            let (curve, dist) = {
                 let c = s.path.curve_with_bufs(bufs);
-                format!("{:?} {:?}", c.path(), c.lengths())
+                (format!("{:?} {:?}", c.path(), c.lengths()), c.dist())
             };
+            let d15 = s.path.expected_dist().is_none() && dist > 131_072.0;
             let nodes = s
                 .node_samples
                 .iter()
@@ -349,6 +351,7 @@ pub fn object_key(h: &mut HitObject, bufs: &mut CurveBuffers) -> ObjKey {
                 samples: format!("{samples} || {nodes}"),
                 excluded_catmull: excluded,
                 d13,
+                d15,
             }
         }
         HitObjectKind::Spinner(s) => ObjKey {
@@ -361,6 +364,7 @@ pub fn object_key(h: &mut HitObject, bufs: &mut CurveBuffers) -> ObjKey {
             samples,
             excluded_catmull: false,
             d13: false,
+            d15: false,
         },
         HitObjectKind::Hold(hd) => ObjKey {
             head: format!("{:?} hold x {:?} dur {:?}", h.start_time, hd.pos_x, hd.duration),
@@ -369,6 +373,7 @@ pub fn object_key(h: &mut HitObject, bufs: &mut CurveBuffers) -> ObjKey {
             samples,
             excluded_catmull: false,
             d13: false,
+            d15: false,
         },
     }
 }
